@@ -16,6 +16,14 @@ CLAIMED = {
    text='Coq theorems (coq/props/C16.v) over ALL consistent delivery histories (no length bound) of a model mirroring DeferQueue.request_writes as repaired and both non-seekable output-manager paths: writes = object prefix with offsets = running length, every byte position written exactly once, next_offset = contiguous frontier of the delivered intervals (withheld until contiguous, released as soon as contiguous), complete coverage => whole object; pre-repair models refuted by computation. Tie checked every run: differential of the real DeferQueue / queue_file_io_task / get_io_write_tasks against the extracted model on all maximal grammar histories in small scopes, random grammar histories, a malformed stream, an implementation-only oracle, and real TransferManager downloads to a non-seekable stream under injected stream faults.',
    ref='DESIGN.md 5.C16',
    note='Trusted: Coq kernel; extraction + OCaml driver + Python harness (correspondence only). Assumed: one FIFO IO worker; heapq order = sorted (offset, bytes) list; GetObject returns the stored range.'),
+ 'C15': dict(
+   text='Coq theorems (coq/props/C15.v): for ALL extra-args dictionaries the kwargs of every call are determined argument-by-argument plus a finite checksum summary (pointwise theorem, by induction); over the finite table modes x operations x allowed names x checksum summaries, forwarded = accepted-by-the-installed-botocore-shape modulo exactly the exceptions C15 itemises (vm_compute over regenerated Tables.v x Shapes.v); nothing unknown is ever sent; disallowed names rejected before any request; values unmodified; full-object checksum and CRC32-default rules. Legacy: same table with the four F6 cells carved out by name and proved to be real deviations (known finding). Tie checked every run: both translators re-run (source ast, botocore service model), exhaustive cell differential of the real TransferManager / legacy S3Transfer / process-pool submitter+worker against the extracted routing model, plus pairs, random subsets and a malformed stream; implementation-only oracle against botocore.',
+   ref='DESIGN.md 5.C15',
+   note='Trusted: Coq kernel; gen_tables.py and gen_shapes.py (fail-closed); extraction + OCaml driver + Python harness (correspondence only). botocore request serialisation is not exercised; the process pool runs in-process. Known finding F6: four legacy CompleteMultipartUpload cells (known_findings.json).'),
+ 'C17': dict(
+   text='Coq theorems (coq/props/C17.v) over a model of TransferCoordinator + TransferFuture for EVERY op sequence, every callback-script environment: done() is monotone, a finished transfer cannot be restarted, the first failure/cancellation is kept, only set_result / override / the user\'s set_exception-on-done replaces it, exception stored <=> status failed/cancelled and result() raises exactly it once the event is set, callbacks and cleanups run once in registration order and cleanups never under success; re-entrancy: no self-deadlock when announces happen in done states (pre-F2 variant refuted by witness). Tie checked every run: exhaustive op sequences (length 4 over 14 ops, 5 over the core alphabet), random sequences with scripts, 2-3 thread merges, re-runs with the genuine locks under a watchdog, static ast check that state writes sit inside the lock. System-level forward order (not-started -> queued -> running) is proved for the protocol model Sys.v (proofs/SysCoordInv.v).',
+   ref='DESIGN.md 5.C17',
+   note='Trusted: Coq kernel; extraction + OCaml driver + Python harness (correspondence only). Atomicity of each critical section is checked statically (ast), not proved; forward order of the non-done states is a system-level fact, not a class-level one.'),
 }
 
 
